@@ -276,6 +276,8 @@ def run(p: Program, rep: Report, tier: str) -> None:
     ys = [argmap.get(ast.unparse(n.value), ast.unparse(n.value)) for n in ast.walk(gen.node) if isinstance(n, ast.Yield) and n.value is not None] if gen else []
     if ys[:1] == ["first_chunk"] or (ys and any(isinstance(n, ast.Assign) and ast.unparse(n.targets[0]) == ys[0] for n in walk_shallow(en.node))):
         rep.ok("R20.3", "the forced first chunk is yielded first")
+    elif gen is None and any(isinstance(n, ast.Return) and isinstance(n.value, ast.Call) and isinstance(p.resolve_call(en, n.value), ClassInfo) for n in walk_shallow(en.node)):
+        rep.undecide("R20.3", "ensure_next hands the first chunk and the advanced iterator to an iterator object; the re-emission order is not read off a class")
     else:
         rep.violation("R20.3", construct(en, text=f"yields {ys}"), where(en), "the forced first chunk is not re-emitted first")
 
@@ -301,6 +303,11 @@ def run(p: Program, rep: Report, tier: str) -> None:
             raise AnalysisError(f"{side} middleware.d.{side} vanished")
         rep.analysed(inner.fq)
         nc = nested_fn(inner, "next_call", passed_as_argument(inner))
+        if nc is None or (mwd is not None and nc.name not in inner.nested):
+            # the continuation may be defined once per decorated application, next to the gateway function
+            sib = [f_ for f_ in mwd.nested.values() if f_ is not inner and passed_as_argument(inner)(f_)] if mwd is not None else []
+            if len(sib) == 1:
+                nc = sib[0]
         hname = mw.params[0] if mw.params else "handler"
         hcalls = [c for c in calls_in(inner) if isinstance(c.func, ast.Name) and c.func.id == hname]
         # roles: the request object built from the gateway arguments, the nested continuation
